@@ -270,6 +270,11 @@ func startGatewayHealthCheck(e *EndpointInfo, interval time.Duration, ctx contex
 		for {
 			select {
 			case <-e.healthCheckCh:
+				if ctx.Err() != nil {
+					// the endpoint has been disabled or removed while a token was buffered:
+					// select picks randomly between the two ready cases, do not start another probe
+					return
+				}
 				e.healthCheckFun(e)
 			case <-ctx.Done():
 				return
